@@ -1,7 +1,85 @@
 import NpsVerif.Model.Heap
+import NpsVerif.Proofs.HeapSim
+import NpsVerif.Proofs.HeapReads
+/-!
+# Property C06: derived arrays behave like fresh ones
+
+The heap model (flat buffers + shapes; selections own a new buffer, `x[...]` shares one, assignment
+writes the shared buffer) produces, for every straight-line program, the same observations as the
+reference semantics in which every variable denotes a cell of plain rows.  The simulation relation and
+the step lemma are in `Proofs/HeapSim.lean`; they use the per-operation theorems C01–C04, C07, C08.
+-/
 namespace Props.C06
 open Model Model.Heap
-/-- sanity instance; the universally quantified theorems are added as they are proved -/
+
+/-- sanity instance -/
 theorem alias_example : run init [.new [[1, 2], []], .alias 0, .assign 1 (.rowcol (.int 0) (.int 0)) (.scalar 9), .read 0] =
     [.made true, .made true, .made true, .rows (some [[9, 2], []])] := by decide
+
+/-- HEADLINE: for EVERY straight-line program, the observation trace of the heap model (flat buffers +
+shapes, selections own a new buffer, aliases share one, assignment writes the shared buffer) equals the
+trace under the reference semantics where every variable denotes a cell holding plain rows. -/
+theorem C06_program (prog : List Stmt) : run init prog = runS initS prog :=
+  Proofs.HeapSim.sim_run Proofs.HeapSim.sim_init prog
+
+/-- reference semantics: every creating statement other than `alias` puts its result in a FRESH cell -/
+theorem C06_fresh_cell (s : Store) (st : Stmt) (hc : match st with
+      | .new _ | .select _ _ | .addScalar _ _ | .addArrays _ _ | .concat _ _ | .sort _ | .cumsum _ | .diff _ => True
+      | _ => False)
+    (hok : (stepS s st).2 = .made true) :
+    (stepS s st).1.vars = s.vars ++ [some s.cells.length] ∧ (stepS s st).1.cells.length = s.cells.length + 1 := by
+  cases st with
+  | alias _ | assign _ _ _ | read _ | readIdx _ _ | readSum _ => exact absurd hc id
+  | _ => exact Proofs.HeapReads.stepNewS_made s _ hok
+
+/-- assigning into an array never alters an array that lives in a different cell — in particular
+assigning into a derived array never alters the array it was derived from -/
+theorem C06_assign_frame (s : Store) (x y : Nat) (idx : Index) (v : Value Int)
+    (hne : s.var x ≠ s.var y) : (stepS s (.assign x idx v)).1.val y = s.val y :=
+  Proofs.HeapReads.assign_frame s x y idx v hne
+
+/-- `a[...]` is an alias: it denotes the same cell, so a write through either is seen through both -/
+theorem C06_alias_shares (s : Store) (x : Nat) (hx : (s.var x).isSome) :
+    (stepS s (.alias x)).1.var s.vars.length = s.var x :=
+  Proofs.HeapReads.alias_shares s x hx
+
+/-! ## non-vacuity: whole programs, evaluated on the heap model and on the reference store -/
+
+/- selection, then a write to the SOURCE, then a read of the selection: the selection owns its data and
+still reads `[[], [4,5,6]]`; the source shows the write -/
+example : run init [.new [[0,1,2,3],[],[4,5,6],[7]], .select 0 (.rows (.slice (some 1) (some 3) none)),
+      .assign 0 (.rows (.int 2)) (.scalar 99), .read 1, .read 0] =
+    [.made true, .made true, .made true, .rows (some [[], [4,5,6]]),
+      .rows (some [[0,1,2,3],[],[99,99,99],[7]])] := by decide
+
+example : runS initS [.new [[0,1,2,3],[],[4,5,6],[7]], .select 0 (.rows (.slice (some 1) (some 3) none)),
+      .assign 0 (.rows (.int 2)) (.scalar 99), .read 1, .read 0] =
+    [.made true, .made true, .made true, .rows (some [[], [4,5,6]]),
+      .rows (some [[0,1,2,3],[],[99,99,99],[7]])] := by decide
+
+/- a write into the SELECTION does not reach the source -/
+example : run init [.new [[0,1,2,3],[],[4,5,6],[7]], .select 0 (.rows (.slice (some 1) (some 3) none)),
+      .assign 1 (.rows (.int 1)) (.scalar 99), .read 0, .read 1] =
+    [.made true, .made true, .made true, .rows (some [[0,1,2,3],[],[4,5,6],[7]]),
+      .rows (some [[], [99,99,99]])] := by decide
+
+/- an alias DOES see the write (both directions), and a selection taken from the alias before the
+write does not -/
+example : run init [.new [[0,1,2,3],[],[4,5,6],[7]], .alias 0, .select 1 (.rows (.slice (some 1) (some 3) none)),
+      .assign 0 (.rows (.int 2)) (.scalar 99), .read 1, .assign 1 (.rowcol (.int 0) (.int 0)) (.scalar (-1)),
+      .read 0, .read 2] =
+    [.made true, .made true, .made true, .made true, .rows (some [[0,1,2,3],[],[99,99,99],[7]]),
+      .made true, .rows (some [[-1,1,2,3],[],[99,99,99],[7]]), .rows (some [[], [4,5,6]])] := by decide
+
+/- a refused creation leaves a hole: later uses of the missing variable are refused / read `none`,
+the numbering of the following variables is unaffected; derived arrays (ufunc, concatenate, cumsum,
+diff) are fresh -/
+example : run init [.new [[1,2],[3]], .new [[10],[20,30]], .addArrays 0 1, .read 2, .addScalar 0 5,
+      .concat 0 3, .cumsum 4, .diff 5, .assign 3 (.rows (.int 0)) (.scalar 0), .read 4, .read 5, .read 6,
+      .readSum 3, .readIdx 0 (.rowcol (.int 1) (.int 0))] =
+    [.made true, .made true, .made false, .rows none, .made true,
+      .made true, .made true, .made true, .made true, .rows (some [[1,2],[3],[6,7],[8]]),
+      .rows (some [[1,3],[3],[6,13],[8]]), .rows (some [[2],[],[7],[]]),
+      .sums (some [0, 8]), .res (some (.scalar 3))] := by decide
+
 end Props.C06
